@@ -115,7 +115,7 @@ def gen_frame (rng, kind=None, tagged=None, pad=None, payload_len=None,
                    (0 if rng.random() < 0.5 else 3)), vlan, pad)
   elif k in ("arp_req", "arp_rep"):
     op = 1 if k == "arp_req" else 2
-    if rng.random() < 0.1: op = rng.choice([3, 4, 255])
+    if rng.random() < 0.15: op = rng.choice([3, 4, 255, 256, 257, 0x0201, 0xffff])
     raw = F.eth(dst, src, 0x0806, F.arp(op, src, sip, MACS[0], dip), vlan, pad)
   elif k == "other":
     raw = F.eth(dst, src, rng.choice([0x88b5, 0x8847, 0x0600, 0xffff, 0x9000]),
